@@ -17,6 +17,7 @@ type Clause struct {
 	Line  int
 	Bound bool
 	Mask  string // varies clauses: the bits concerned (a constant)
+	Candidate bool // loop invariants: a candidate - used if it turns out to be inductive, dropped otherwise
 }
 
 type LoopSpec struct {
@@ -27,6 +28,7 @@ type LoopSpec struct {
 	Steps     []*Clause // `step` clauses: hold at every back edge, relating the iteration's start to its end
 	Decreases *Clause
 	Havoc     []string // names of extra state to havoc (informational)
+	Dropped   map[int]bool // candidate invariants (indices into Invs) found not to be inductive
 }
 
 type PParam struct{ Name, Type string }
@@ -336,7 +338,7 @@ func ParseContractFile(path string) (*PkgContracts, error) {
 				case "loop":
 					fs := strings.Fields(s.text)
 					if len(fs) < 2 {
-						return nil, fmt.Errorf("%s:%d: loop K unroll N | invariant E | step E | exit E | decreases E", path, s.line)
+						return nil, fmt.Errorf("%s:%d: loop K unroll N | invariant E | candidate E | step E | exit E | decreases E", path, s.line)
 					}
 					k, err := strconv.Atoi(fs[0])
 					if err != nil {
@@ -361,6 +363,13 @@ func ParseContractFile(path string) (*PkgContracts, error) {
 						if err != nil {
 							return nil, fmt.Errorf("%s:%v", path, err)
 						}
+						ls.Invs = append(ls.Invs, c)
+					case "candidate":
+						c, err := parseClause(restTxt, s.line)
+						if err != nil {
+							return nil, fmt.Errorf("%s:%v", path, err)
+						}
+						c.Candidate = true
 						ls.Invs = append(ls.Invs, c)
 					case "step":
 						c, err := parseClause(restTxt, s.line)
